@@ -1,6 +1,7 @@
 package props
 
 import (
+	"github.com/libp2p/go-libp2p/core/peer"
 	"bytes"
 	"encoding/hex"
 	"fmt"
@@ -123,6 +124,19 @@ func c13GenAd(r *rand.Rand, bits int) *schema.Advertisement {
 			}
 		}
 		a.ExtendedProvider = ep
+	}
+	if r.Intn(6) == 0 {
+		// identities written in the CID text form of a peer ID: strings like any other, to be kept as written
+		if pid, err := peer.Decode(a.Provider); err == nil {
+			a.Provider = peer.ToCid(pid).String()
+		}
+		if a.ExtendedProvider != nil {
+			for k := range a.ExtendedProvider.Providers {
+				if pid, err := peer.Decode(a.ExtendedProvider.Providers[k].ID); err == nil && r.Intn(2) == 0 {
+					a.ExtendedProvider.Providers[k].ID = peer.ToCid(pid).String()
+				}
+			}
+		}
 	}
 	if bits&64 != 0 { // unusual strings
 		a.Provider = []string{"", "not-a-peer-id", "日本語", "a\"b\\c\n", "\x00\x01"}[r.Intn(5)]
